@@ -226,7 +226,9 @@ func main() {
 		nedits += e
 	}
 	for k, v := range addOverlay {
-		overlay[k] = v
+		if _, rewritten := overlay[k]; !rewritten {
+			overlay[k] = v
+		}
 	}
 	ob, _ := json.MarshalIndent(map[string]any{"Replace": overlay}, "", " ")
 	must(os.WriteFile(filepath.Join(*out, "overlay.json"), ob, 0o644))
